@@ -77,6 +77,28 @@ def validity_established(prog, b, blk, user_desc):
     return None
 
 
+
+def db_order_independent(chk, prog):
+    """R8.list_order: the user list is searched in a way that does not depend on its order, or its order is never disturbed.  A
+    binary search / partition_point over Vec<User> presupposes a sorted list; if any method of the same impl appends at the end, swap-removes,
+    swaps or reverses, the invariant breaks after a particular history (three users, the middle one removed) and a user who exists — and whose
+    token still resolves through the linear token lookup — is no longer found by uid: invalidate / remove silently do nothing."""
+    base = "<std::vec::Vec<humphrey_auth::user::User> as humphrey_auth::database::AuthDatabase>::"
+    fam = [b for p_, b in sorted(prog.bodies.items()) if p_.startswith(base)]
+    chk.floor("AuthDatabase for Vec<User> bodies", len(fam), 6)
+    ordered = [(b, blk, t) for b in fam for blk, t in b.calls_to(r"::(binary_search(_by|_by_key)?|partition_point)$")]
+    disturb = [(b, blk, t) for b in fam for blk, t in b.calls_to(r"Vec::<T, A>::(push|swap_remove|append|extend_from_slice)$|::(swap|reverse|rotate_left|rotate_right|sort_unstable_by_key|sort_by_key|sort_by|sort_unstable_by)$")
+               if t.get("arg_tys") and "user::User" in t["arg_tys"][0]]
+    if not ordered:
+        chk.ob("R8.list_order", base.rstrip(":"), "lookups over the user list do not depend on its order (linear find / position / retain)", True,
+               f"{len(disturb)} order-changing call(s) are harmless: nothing searches by order")
+        return
+    for b, blk, t in ordered:
+        chk.ob("R8.list_order", b.path, f"{core.short(t['callee'])} over the user list: no method of the impl disturbs the order it relies on", not disturb,
+               f"the list is searched by order here, but {core.short(disturb[0][2]['callee']) if disturb else ''} in {core.short(disturb[0][0].path) if disturb else ''} "
+               "does not keep it sorted: after that call an existing user can be missed by uid (invalidate_user_session / remove_user do nothing, the token stays valid)",
+               where=b.where(blk))
+
 def run(chk):
     prog = chk.use(core.load("A", fresh=(chk.tier == "thorough")))
     chk.explanation = (
@@ -340,6 +362,7 @@ def run(chk):
         chk.ob("R7.strict", vb.path, "valid() == (now < expiry), strictly, with now from the system clock", ok,
                f"valid() computes {panics.short_desc(d)}: a session created with lifetime 0 must be born expired")
     db_lookup(chk, prog)
+    db_order_independent(chk, prog)
     unknown_uid(chk, prog)
     refresh_persisted(chk, prog)
     whole_password_and_expiry(chk, prog)
